@@ -41,6 +41,13 @@ type fieldAccess struct {
 	field string
 	held  []string
 	pos   string
+	// the acquisition (numbered per Lock/RLock call) of the field's own mutex that covers this use, 0 when the
+	// function itself has not taken it (a caller holds it); whether that acquisition is a read lock; whether
+	// the use is an assignment to the field, and an append to it
+	acq       int
+	underRead bool
+	write     bool
+	appendTo  bool
 }
 
 // guardedFields: package -> field -> the mutex that the package's own comments and every existing use
@@ -95,6 +102,8 @@ type walker struct {
 	fset *token.FileSet
 	f    *fn
 	recv string
+	// the selector expressions that are being assigned to, and those assigned an append to themselves
+	lhs, appendLhs map[*ast.SelectorExpr]bool
 }
 
 func (w *walker) pos(n ast.Node) string {
@@ -105,23 +114,43 @@ func (w *walker) pos(n ast.Node) string {
 type heldSet struct {
 	locks    []string        // in acquisition order
 	deferred map[string]bool // unlocked by defer
+	acq      []acqInfo       // parallel to locks
 }
+
+// acqInfo: one Lock / RLock call
+type acqInfo struct {
+	id   int
+	read bool
+}
+
+var acqCounter int
 
 func (h heldSet) clone() heldSet {
 	d := map[string]bool{}
 	for k, v := range h.deferred {
 		d[k] = v
 	}
-	return heldSet{append([]string{}, h.locks...), d}
+	return heldSet{append([]string{}, h.locks...), d, append([]acqInfo{}, h.acq...)}
 }
 
 func (h *heldSet) remove(m string) {
 	for i := len(h.locks) - 1; i >= 0; i-- {
 		if h.locks[i] == m {
 			h.locks = append(h.locks[:i], h.locks[i+1:]...)
+			h.acq = append(h.acq[:i], h.acq[i+1:]...)
 			return
 		}
 	}
+}
+
+// innermost: the latest acquisition of mutex m still held
+func (h *heldSet) innermost(m string) (acqInfo, bool) {
+	for i := len(h.locks) - 1; i >= 0; i-- {
+		if h.locks[i] == m && i < len(h.acq) {
+			return h.acq[i], true
+		}
+	}
+	return acqInfo{}, false
 }
 
 func (w *walker) call(c *ast.CallExpr, h *heldSet, deferred bool) {
@@ -147,6 +176,8 @@ func (w *walker) call(c *ast.CallExpr, h *heldSet, deferred bool) {
 				w.f.edges = append(w.f.edges, [3]string{x, m, w.f.name + " " + w.pos(c)})
 			}
 			h.locks = append(h.locks, m)
+			acqCounter++
+			h.acq = append(h.acq, acqInfo{acqCounter, sel.Sel.Name == "RLock"})
 			w.f.acquires[m] = true
 			return
 		}
@@ -184,8 +215,13 @@ func (w *walker) fields(e ast.Node, h *heldSet) {
 		case *ast.FuncLit:
 			return false
 		case *ast.SelectorExpr:
-			if _, ok := curGuarded[t.Sel.Name]; ok {
-				w.f.access = append(w.f.access, fieldAccess{t.Sel.Name, append([]string{}, h.locks...), w.f.name + " " + w.pos(t)})
+			if m, ok := curGuarded[t.Sel.Name]; ok {
+				a := fieldAccess{field: t.Sel.Name, held: append([]string{}, h.locks...), pos: w.f.name + " " + w.pos(t)}
+				if ai, ok := h.innermost(m); ok {
+					a.acq, a.underRead = ai.id, ai.read
+				}
+				a.write, a.appendTo = w.lhs[t], w.appendLhs[t]
+				w.f.access = append(w.f.access, a)
 			}
 		}
 		return true
@@ -227,9 +263,32 @@ func (w *walker) stmt(s ast.Stmt, h *heldSet) {
 		for _, r := range t.Rhs {
 			w.exprCalls(r, h)
 		}
-		for _, l := range t.Lhs {
+		for i, l := range t.Lhs {
+			if sel, ok := l.(*ast.SelectorExpr); ok {
+				if w.lhs == nil {
+					w.lhs, w.appendLhs = map[*ast.SelectorExpr]bool{}, map[*ast.SelectorExpr]bool{}
+				}
+				w.lhs[sel] = true
+				if i < len(t.Rhs) {
+					if c, ok := t.Rhs[i].(*ast.CallExpr); ok {
+						if id, ok := c.Fun.(*ast.Ident); ok && id.Name == "append" && len(c.Args) > 0 {
+							if first, ok := c.Args[0].(*ast.SelectorExpr); ok && first.Sel.Name == sel.Sel.Name {
+								w.appendLhs[sel] = true
+							}
+						}
+					}
+				}
+			}
 			w.fields(l, h)
 		}
+	case *ast.IncDecStmt:
+		if sel, ok := t.X.(*ast.SelectorExpr); ok {
+			if w.lhs == nil {
+				w.lhs, w.appendLhs = map[*ast.SelectorExpr]bool{}, map[*ast.SelectorExpr]bool{}
+			}
+			w.lhs[sel] = true
+		}
+		w.fields(t.X, h)
 	case *ast.DeclStmt:
 		w.exprCalls(t, h)
 	case *ast.ReturnStmt:
@@ -466,6 +525,47 @@ func (pf *pkgFacts) unguarded(guards map[string]string) []string {
 	return out
 }
 
+// writesUnderReadLock: assignments to a guarded field made while its mutex is held for reading only
+func (pf *pkgFacts) writesUnderReadLock(guards map[string]string) []string {
+	var out []string
+	for _, name := range pf.order {
+		for _, a := range pf.fns[name].access {
+			if a.write && a.acq != 0 && a.underRead {
+				out = append(out, fmt.Sprintf("%s assigned under %s.RLock at %s", a.field, guards[a.field], a.pos))
+			}
+		}
+	}
+	sort.Strings(out)
+	return out
+}
+
+// splitDecisions: a field `queue` is appended to because a field `flag` said so; the places where the append
+// is not made under the very acquisition of the mutex under which the flag was looked at (the flag may have
+// changed in between: check-then-act). An append in a function that has not taken the mutex itself counts as
+// decided in that function when the function looks at the flag, under no acquisition of its own either.
+func (pf *pkgFacts) splitDecisions(flag, queue string) []string {
+	var out []string
+	for _, name := range pf.order {
+		f := pf.fns[name]
+		for _, a := range f.access {
+			if a.field != queue || !a.appendTo {
+				continue
+			}
+			decided := false
+			for _, b := range f.access {
+				if b.field == flag && !b.write && b.acq == a.acq {
+					decided = true
+				}
+			}
+			if !decided {
+				out = append(out, fmt.Sprintf("%s appended to at %s, not under the acquisition under which %s was read", queue, a.pos, flag))
+			}
+		}
+	}
+	sort.Strings(out)
+	return out
+}
+
 type edge struct {
 	From, To, Where string
 }
@@ -607,6 +707,14 @@ func main() {
 			ug := pf.unguarded(g)
 			b.WriteString(fmt.Sprintf("/-- uses of a mutex-guarded field of package %s (%s) outside its mutex -/\ndef %sUnguarded : List String := [%s]\n\n", pkg, strings.Join(fs, ", "), pkg, quoteAll(ug)))
 			summary[pkg+"_unguarded"] = len(ug)
+			wr := pf.writesUnderReadLock(g)
+			b.WriteString(fmt.Sprintf("/-- assignments to a mutex-guarded field of package %s made with the mutex held for reading only -/\ndef %sWritesUnderReadLock : List String := [%s]\n\n", pkg, pkg, quoteAll(wr)))
+			summary[pkg+"_writes_under_rlock"] = len(wr)
+			if pkg == "client" {
+				sd := pf.splitDecisions("deferUpdates", "deferredUpdates")
+				b.WriteString(fmt.Sprintf("/-- notifications queued (deferredUpdates appended to) elsewhere than under the lock acquisition under which\n    deferUpdates was looked at: the decision to hold a notification back and the queuing are not one step -/\ndef clientSplitDeferDecisions : List String := [%s]\n\n", quoteAll(sd)))
+				summary["client_split_defer_decisions"] = len(sd)
+			}
 		}
 		if pkg == "client" || pkg == "server" {
 			var ws []string
